@@ -47,7 +47,9 @@ ASSUMPTIONS = [
     'file) counts as an error; the wall-clock backstop of child processes is a machinery failure, never a verdict.',
     'After a crash a follow-up call may raise (accepted, counted in distinct_outcomes); it must never return '
     'anything but a Specification with the uncached behaviour.',
-    'Quick tier: option combinations are the one-deviation set {ber, uper, ber+numeric, ber+adb, uper+numeric}; '
+    'Quick tier: option combinations are the one-deviation set {ber, uper, ber+numeric, ber+adb, uper+numeric}; the BFS '
+    'covers all histories of length <= 2 over the full operation set and all histories of length <= 3 over the core '
+    'operation set (bounds.bfs_second_pass); '
     'crash points: every state-changing syscall of the population of an empty cache with the small sources except '
     'that of the pwrite64 class (SQLite page writes, 156 of 193 points) every 3rd point is taken (the large '
     'value-file population and the populated-cache scenarios, and every pwrite64 point, are thorough only); damage: '
@@ -64,7 +66,7 @@ EDIT = {'edit': True}
 
 def tier_cfg(tier):
     if tier == 'quick':
-        return {'H': 3, 'opts': OPTS_QUICK,
+        return {'H': 2, 'opts': OPTS_QUICK, 'H_core': 3,
                 'crash': [('empty-small', None)], 'crash_stride': {'pwrite64': 3},
                 'damage': [('small', 'db', 'value1s8+stride128', 8), ('big', 'val', 'stride256', 2)]}
     return {'H': 3, 'opts': OPTS_FULL, 'H_reduced': 4,
@@ -73,7 +75,19 @@ def tier_cfg(tier):
                        ('small-wal', 'wal', 'stride128', 16)]}
 
 
+def bfs_ops_core():
+    """The reduced operation set of the deep quick pass: every option once on the plain file list, every other
+    file list once with the plain options, the file that does not compile, and the edit."""
+    ops = [fs.mkcall('L1', c, ne, adb) for c, ne, adb in OPTS_QUICK]
+    ops += [fs.mkcall(lst, 'ber') for lst in BFS_LISTS if lst != 'L1']
+    ops.append(fs.mkcall('BAD', 'ber'))
+    ops.append(dict(EDIT))
+    return ops
+
+
 def bfs_ops(opts):
+    if opts == 'core':
+        return bfs_ops_core()
     ops = []
     for lst in BFS_LISTS:
         for c, ne, adb in opts:
@@ -96,6 +110,10 @@ def bounds(tier):
          'damage_patterns': ['truncate to 0, 1, len/2, len-1'] + [p for p, _ in fs.PATTERNS]}
     if cfg.get('H_reduced'):
         b['bfs_second_pass'] = 'depth %d over the one-deviation option set' % cfg['H_reduced']
+    if cfg.get('H_core'):
+        b['bfs_second_pass'] = ('depth %d over the core operation set (%d operations: every option combination on the '
+                                'plain file list, every other file list with plain options, the non-compiling file, '
+                                'edit f1)' % (cfg['H_core'], len(bfs_ops_core())))
     return b
 
 
@@ -421,7 +439,7 @@ def explore_bfs(res, ops, H, jobs, label):
 def work_bfs(unit):
     res = Result()
     _, tier, label, optname, H = unit
-    opts = OPTS_QUICK if optname == 'quick' else OPTS_FULL
+    opts = 'core' if optname == 'core' else (OPTS_QUICK if optname == 'quick' else OPTS_FULL)
     ops = bfs_ops(opts)
     prime(ops)
     explore_bfs(res, ops, H, max(1, NPROC), label)
@@ -747,6 +765,8 @@ def units(tier):
     out = [('bfs', tier, 'full' if tier != 'quick' else 'one-deviation', 'quick' if tier == 'quick' else 'full', cfg['H'])]
     if cfg.get('H_reduced'):
         out.append(('bfs', tier, 'one-deviation-deep', 'quick', cfg['H_reduced']))
+    if cfg.get('H_core'):
+        out.append(('bfs', tier, 'core-deep', 'core', cfg['H_core']))
     censuses = crash_censuses([s for s, _ in cfg['crash']])
     for (scn, excluded), points in zip(cfg['crash'], censuses):
         for sc in sorted(points):
